@@ -8,6 +8,7 @@ require (
 )
 
 require (
+	github.com/datadog/czlib v0.0.0-20160811164712-4bc9a24e37f2 // indirect
 	github.com/paulmach/protoscan v0.2.1 // indirect
 	google.golang.org/protobuf v1.27.1 // indirect
 )
